@@ -459,11 +459,13 @@ Definition subst_field (args : list pystr) (user : option pystr) (name : list N)
       if forallb is_digit name then
         match nb with
         | NumAuto _ => FSErr
-        | _ => if 6 <? N.of_nat (List.length name) then FSErr      (* far out of range for any args tuple here *)
-               else match nth_error args (N.to_nat (num name)) with
-                    | Some a => FS FText (out ++ a) NumManual
-                    | None => FSErr
-                    end
+        | _ => let i := num name in                       (* leading zeros are fine: int(name) *)
+               if i <? N.of_nat (List.length args) then
+                 match nth_error args (N.to_nat i) with
+                 | Some a => FS FText (out ++ a) NumManual
+                 | None => FSErr
+                 end
+               else FSErr                                  (* IndexError / "Too many decimal digits" *)
         end
       else if eqs name user_name then
         match user with Some u => FS FText (out ++ u) nb | None => FSErr end
